@@ -12,6 +12,7 @@ import (
 	"math"
 	"strconv"
 	"strings"
+	"sync/atomic"
 
 	"github.com/unixpickle/model3d/fileformats"
 	"github.com/unixpickle/model3d/model2d"
@@ -32,7 +33,7 @@ var verts = []model3d.Coord3D{
 }
 
 type meshCase struct {
-	Kind  string  `json:"kind"`
+	Kind  string   `json:"kind"`
 	Faces [][3]int `json:"faces"`
 }
 
@@ -57,25 +58,91 @@ func colorOf(c model3d.Coord3D) [3]uint8 {
 	return [3]uint8{uint8(h), uint8(h >> 8), uint8(h >> 16)}
 }
 
+// chunkReader is the decoder's environment: an io.Reader may legally return
+// fewer bytes than asked for. cut > 0 forces one read to stop at offset cut
+// (one deviation from the default answer); one makes every read return a
+// single byte (all deviations).
+type chunkReader struct {
+	data []byte
+	pos  int
+	cut  int
+	one  bool
+}
+
+func (c *chunkReader) Read(p []byte) (int, error) {
+	if c.pos >= len(c.data) {
+		return 0, io.EOF
+	}
+	n := len(p)
+	if n > len(c.data)-c.pos {
+		n = len(c.data) - c.pos
+	}
+	if c.one && n > 1 {
+		n = 1
+	}
+	if c.cut > c.pos && c.pos+n > c.cut {
+		n = c.cut - c.pos
+	}
+	copy(p, c.data[c.pos:c.pos+n])
+	c.pos += n
+	return n, nil
+}
+
+var modeCounter int64
+var allCuts bool
+
+// readerModes: the plain reader, the one-byte reader and (for every 32nd case,
+// or always in the thorough tier) one reader per cut offset.
+func readerModes(r *ev.Run, data []byte) []func() (io.Reader, string) {
+	out := []func() (io.Reader, string){
+		func() (io.Reader, string) { return bytes.NewReader(data), "" },
+		func() (io.Reader, string) {
+			return &chunkReader{data: data, one: true}, "/short-reads(1 byte per Read)"
+		},
+	}
+	if allCuts || atomic.AddInt64(&modeCounter, 1)%32 == 0 {
+		for k := 1; k < len(data); k++ {
+			k := k
+			out = append(out, func() (io.Reader, string) {
+				return &chunkReader{data: data, cut: k}, fmt.Sprintf("/short-read(one Read stops at offset %d)", k)
+			})
+		}
+	}
+	r.AddTo("reader_environments", int64(len(out)))
+	r.Eval(len(out) - 1)
+	return out
+}
+
+func modeKey(mode string) string {
+	if mode == "" {
+		return ""
+	}
+	return "/short-read"
+}
+
 func checkSTL(r *ev.Run, faces [][3]int) {
 	tris := buildTris(faces)
 	c := meshCase{"stl", faces}
 	data := model3d.EncodeSTL(tris)
-	got, err := model3d.ReadSTL(bytes.NewReader(data))
-	if err != nil {
-		r.Violation("stl/read-error", "ReadSTL(EncodeSTL(m)) failed: "+err.Error(), c)
-		return
-	}
-	if len(got) != len(tris) {
-		r.Violation("stl/face-count", fmt.Sprintf("wrote %d faces, read %d", len(tris), len(got)), c)
-		return
-	}
-	for i := range tris {
-		for k := 0; k < 3; k++ {
-			w, g := tris[i][k], got[i][k]
-			if !bitsEq(g.X, f32(w.X)) || !bitsEq(g.Y, f32(w.Y)) || !bitsEq(g.Z, f32(w.Z)) {
-				r.Violation("stl/coordinate", fmt.Sprintf("face %d vertex %d: wrote %v read %v, want float32 rounding", i, k, w, g), c)
-				return
+	for _, mk := range readerModes(r, data) {
+		rd, mode := mk()
+		mk := modeKey(mode)
+		got, err := model3d.ReadSTL(rd)
+		if err != nil {
+			r.Violation("stl/read-error"+mk, "ReadSTL(EncodeSTL(m)) failed"+mode+": "+err.Error(), c)
+			return
+		}
+		if len(got) != len(tris) {
+			r.Violation("stl/face-count"+mk, fmt.Sprintf("wrote %d faces, read %d%s", len(tris), len(got), mode), c)
+			return
+		}
+		for i := range tris {
+			for k := 0; k < 3; k++ {
+				w, g := tris[i][k], got[i][k]
+				if !bitsEq(g.X, f32(w.X)) || !bitsEq(g.Y, f32(w.Y)) || !bitsEq(g.Z, f32(w.Z)) {
+					r.Violation("stl/coordinate"+mk, fmt.Sprintf("face %d vertex %d: wrote %v read %v, want float32 rounding%s", i, k, w, g, mode), c)
+					return
+				}
 			}
 		}
 	}
@@ -85,31 +152,35 @@ func checkPLY(r *ev.Run, faces [][3]int) {
 	tris := buildTris(faces)
 	c := meshCase{"ply", faces}
 	data := model3d.EncodePLY(tris, colorOf)
-	got, colors, err := model3d.ReadColorPLY(bytes.NewReader(data))
-	if err != nil {
-		key := "ply/read-error"
-		if len(faces) == 0 {
-			key = "ply/empty-mesh-read-error"
-		}
-		r.Violation(key, "ReadColorPLY(EncodePLY(m)) failed: "+err.Error(), c)
-		return
-	}
-	if len(got) != len(tris) {
-		r.Violation("ply/face-count", fmt.Sprintf("wrote %d faces, read %d", len(tris), len(got)), c)
-		return
-	}
-	for i := range tris {
-		for k := 0; k < 3; k++ {
-			w, g := tris[i][k], got[i][k]
-			// vertices are de-duplicated with ==, so the sign of zero is that of the first occurrence
-			if g.X != f32(w.X) || g.Y != f32(w.Y) || g.Z != f32(w.Z) {
-				r.Violation("ply/coordinate", fmt.Sprintf("face %d vertex %d: wrote %v read %v, want float32 rounding", i, k, w, g), c)
-				return
+	for _, mk := range readerModes(r, data) {
+		rd, mode := mk()
+		mk := modeKey(mode)
+		got, colors, err := model3d.ReadColorPLY(rd)
+		if err != nil {
+			key := "ply/read-error"
+			if len(faces) == 0 {
+				key = "ply/empty-mesh-read-error"
 			}
-			col, ok := colors.Load(g)
-			if !ok || col != colorOf(w) {
-				r.Violation("ply/colour", fmt.Sprintf("face %d vertex %d: colour %v (present=%v), want %v", i, k, col, ok, colorOf(w)), c)
-				return
+			r.Violation(key+mk, "ReadColorPLY(EncodePLY(m)) failed"+mode+": "+err.Error(), c)
+			return
+		}
+		if len(got) != len(tris) {
+			r.Violation("ply/face-count"+mk, fmt.Sprintf("wrote %d faces, read %d%s", len(tris), len(got), mode), c)
+			return
+		}
+		for i := range tris {
+			for k := 0; k < 3; k++ {
+				w, g := tris[i][k], got[i][k]
+				// vertices are de-duplicated with ==, so the sign of zero is that of the first occurrence
+				if g.X != f32(w.X) || g.Y != f32(w.Y) || g.Z != f32(w.Z) {
+					r.Violation("ply/coordinate"+mk, fmt.Sprintf("face %d vertex %d: wrote %v read %v, want float32 rounding%s", i, k, w, g, mode), c)
+					return
+				}
+				col, ok := colors.Load(g)
+				if !ok || col != colorOf(w) {
+					r.Violation("ply/colour"+mk, fmt.Sprintf("face %d vertex %d: colour %v (present=%v), want %v%s", i, k, col, ok, colorOf(w), mode), c)
+					return
+				}
 			}
 		}
 	}
@@ -419,38 +490,43 @@ func checkGenericPLY(r *ev.Run, c plyCase) {
 			return
 		}
 	}
-	rd, err := fileformats.NewPLYReader(bytes.NewReader(buf.Bytes()))
-	if err != nil {
-		r.Violation("plygeneric/reader-header-error", err.Error(), c)
-		return
-	}
 	suffix := ""
 	if zeroCount {
 		suffix = "/zero-count-element"
 	}
-	for i, row := range rows {
-		vals, el, err := rd.Read()
+	for _, mk := range readerModes(r, buf.Bytes()) {
+		src, mode := mk()
+		suffix := suffix + modeKey(mode)
+		rd, err := fileformats.NewPLYReader(src)
 		if err != nil {
-			r.Violation("plygeneric/row-missing"+suffix, fmt.Sprintf("row %d of %d: %v (written bytes: %d)", i, len(rows), err, buf.Len()), c)
+			r.Violation("plygeneric/reader-header-error"+modeKey(mode), err.Error()+mode, c)
 			return
 		}
-		if el != rd.Header().Elements[rowElem[i]] {
-			r.Violation("plygeneric/wrong-element"+suffix, fmt.Sprintf("row %d attributed to element %s, want el%d", i, el.Name, rowElem[i]), c)
-			return
-		}
-		if len(vals) != len(row) {
-			r.Violation("plygeneric/value-count"+suffix, fmt.Sprintf("row %d: %d values, want %d", i, len(vals), len(row)), c)
-			return
-		}
-		for k := range row {
-			if valueString(vals[k]) != valueString(row[k]) {
-				r.Violation("plygeneric/value/"+c.Elems[rowElem[i]].Props[k].Elem+suffix, fmt.Sprintf("row %d value %d: wrote %s read %s", i, k, valueString(row[k]), valueString(vals[k])), c)
+		for i, row := range rows {
+			vals, el, err := rd.Read()
+			if err != nil {
+				r.Violation("plygeneric/row-missing"+suffix, fmt.Sprintf("row %d of %d: %v (written bytes: %d)%s", i, len(rows), err, buf.Len(), mode), c)
 				return
 			}
+			if el != rd.Header().Elements[rowElem[i]] {
+				r.Violation("plygeneric/wrong-element"+suffix, fmt.Sprintf("row %d attributed to element %s, want el%d%s", i, el.Name, rowElem[i], mode), c)
+				return
+			}
+			if len(vals) != len(row) {
+				r.Violation("plygeneric/value-count"+suffix, fmt.Sprintf("row %d: %d values, want %d%s", i, len(vals), len(row), mode), c)
+				return
+			}
+			for k := range row {
+				if valueString(vals[k]) != valueString(row[k]) {
+					r.Violation("plygeneric/value/"+c.Elems[rowElem[i]].Props[k].Elem+suffix, fmt.Sprintf("row %d value %d: wrote %s read %s%s", i, k, valueString(row[k]), valueString(vals[k]), mode), c)
+					return
+				}
+			}
 		}
-	}
-	if _, _, err := rd.Read(); err != io.EOF {
-		r.Violation("plygeneric/eof"+suffix, fmt.Sprintf("Read after the last row returned %v, want io.EOF", err), c)
+		if _, _, err := rd.Read(); err != io.EOF {
+			r.Violation("plygeneric/eof"+suffix, fmt.Sprintf("Read after the last row returned %v, want io.EOF%s", err, mode), c)
+			return
+		}
 	}
 }
 
@@ -623,6 +699,7 @@ func main() {
 	maxLen := 2
 	if r.Thorough() {
 		maxLen = 3
+		allCuts = true
 	}
 	r.Isolate("meshes", func() { enumMeshes(r, maxLen) })
 	r.Isolate("csv-text", func() { checkCSV(r); checkTextFormats(r) })
